@@ -662,7 +662,8 @@ fn gen_ext_task(rng: &mut Rng, origin: String) -> ExtTask {
                     // a predicate of higher rank (so that the dependency order is acyclic) unless sloppy
                     let pool: Vec<&str> = if sloppy { heads.clone() } else { heads.iter().skip(hrank + 1).cloned().chain(inputs.iter().cloned()).collect() };
                     let name = pool[g.rng.below(pool.len())];
-                    let ar = if name == "out2" { 0 } else { 1 };
+                    // now and then a private predicate at arity 0 as well (one symbol, two arities)
+                    let ar = if name == "out2" || (privs.contains(&name) && g.rng.chance(1, 12)) { 0 } else { 1 };
                     let sign = match g.rng.below(4) { 0 => asp::Sign::Negation, 1 => asp::Sign::DoubleNegation, _ => asp::Sign::NoSign };
                     body.push(asp::AtomicFormula::Literal(asp::Literal { sign, atom: asp::Atom { predicate_symbol: name.into(), terms: (0..ar).map(|_| g.aterm(depth)).collect() } }));
                 }
@@ -702,6 +703,16 @@ fn gen_ext_task(rng: &mut Rng, origin: String) -> ExtTask {
         let body = fol::Formula::BinaryFormula { connective: fol::BinaryConnective::Implication, lhs: Box::new(atom1("in1", v.clone())), rhs: Box::new(if sloppy && g.rng.chance(1, 3) { atom1("out1", v) } else { fol::Formula::AtomicFormula(fol::AtomicFormula::Comparison(fol::Comparison { term: v, guards: vec![fol::Guard { relation: fol::Relation::GreaterEqual, term: fol::GeneralTerm::SymbolicTerm(fol::SymbolicTerm::Symbol("n".into())) }] })) }) };
         entries.push(fol::UserGuideEntry::AnnotatedFormula(fol::AnnotatedFormula { role: if g.rng.chance(1, 8) { fol::Role::Lemma } else { fol::Role::Assumption }, direction: *g.rng.pick(&[fol::Direction::Universal, fol::Direction::Universal, fol::Direction::Forward, fol::Direction::Backward]), name: if g.rng.chance(1, 2) { "ug_assumption".into() } else { String::new() }, formula: fol::Formula::QuantifiedFormula { quantification: fol::Quantification { quantifier: fol::Quantifier::Forall, variables: vec![fol::Variable { name: "X".into(), sort: fol::Sort::General }] }, formula: Box::new(body) } }));
     }
+    if g.rng.chance(1, 8) {
+        // an input predicate named like a renamed private predicate, mentioned (if at all) only by an assumption
+        let name = *g.rng.pick(&["q_p", "q_p1", "q"]);
+        entries.push(fol::UserGuideEntry::InputPredicate(fol::Predicate { symbol: name.into(), arity: 1 }));
+        if g.rng.chance(2, 3) {
+            let v = fol::GeneralTerm::Variable("X".into());
+            let body = fol::Formula::BinaryFormula { connective: fol::BinaryConnective::Implication, lhs: Box::new(atom1(name, v.clone())), rhs: Box::new(atom1("in1", v)) };
+            entries.push(fol::UserGuideEntry::AnnotatedFormula(fol::AnnotatedFormula { role: fol::Role::Assumption, direction: fol::Direction::Universal, name: String::new(), formula: fol::Formula::QuantifiedFormula { quantification: fol::Quantification { quantifier: fol::Quantifier::Forall, variables: vec![fol::Variable { name: "X".into(), sort: fol::Sort::General }] }, formula: Box::new(body) } }));
+        }
+    }
     let ug = fol::UserGuide { entries };
     // specification side
     let spec = if g.rng.chance(2, 3) {
@@ -715,6 +726,17 @@ fn gen_ext_task(rng: &mut Rng, origin: String) -> ExtTask {
             gg.nvars = 3;
             let d = 1 + gg.rng.below(2);
             let mut f = gg.formula(d).universal_closure();
+            if role == fol::Role::Spec && gg.rng.chance(1, 5) {
+                // an equivalence below a quantifier prefix (what eq-break looks at): exists X (A <-> B), forall X exists Y (A <-> B), ...
+                let lhs = gg.formula(0);
+                let rhs = gg.formula(1);
+                let iff = fol::Formula::BinaryFormula { connective: fol::BinaryConnective::Equivalence, lhs: Box::new(lhs), rhs: Box::new(rhs) };
+                let vars: Vec<fol::Variable> = iff.free_variables().into_iter().collect();
+                let q1 = if gg.rng.chance(2, 3) { fol::Quantifier::Exists } else { fol::Quantifier::Forall };
+                f = if vars.is_empty() { iff } else if vars.len() > 1 && gg.rng.chance(1, 2) {
+                    iff.quantify(q1, vars[1..].to_vec()).quantify(fol::Quantifier::Forall, vars[..1].to_vec())
+                } else { iff.quantify(q1, vars) };
+            }
             // use the task's predicates
             f = rename_to_task_preds(f, role == fol::Role::Assumption && !sloppy);
             fs.push(fol::AnnotatedFormula { role, direction: *g.rng.pick(&[fol::Direction::Universal, fol::Direction::Universal, fol::Direction::Forward, fol::Direction::Backward]), name: if g.rng.chance(1, 2) { format!("s{i}") } else { String::new() }, formula: f });
